@@ -150,6 +150,9 @@ def check_guards(ctx, wm: WeaverModel):
     r = [e for e in st.init_raises if e.data.get('exc') == 'ValueError' and any(_is_n_lt_2(g, st.n) for g in e.guard)]
     ctx.check(bool(r), 'C20.1', 'oversampling factor below 2: AbstractRFA.__init__ raises ValueError exactly when n < 2',
               f"{[(e.data.get('exc'), [str(g) for g in e.guard]) for e in st.init_raises]}", st.init.loc(), st.init.qualname, 'n<2')
+    # ... and the Weaver reaches that check on every call (no shortcut in front of the strategy)
+    from .c02 import check_recreate_wiring
+    check_recreate_wiring(ctx, wm, rule='C20.1')
     # 4-6 dispatchers
     ctx.rule('C20.2', 'every literal dispatch over a method-name parameter ends in `raise ValueError` on the no-match path')
     dispatch_fallthrough(ctx, SAU + 'integral', 'method', 'integration rule', ['trapezoid', 'rectangle'])
